@@ -156,20 +156,21 @@ def file_case(ctx, rng, idx, pending):
                                **({'limit': limit} if limit is not None else {})}, {'rows': got}))
 
 
-def cast_case(ctx, rng, idx):
+def cast_case(ctx, rng, idx, pending):
     """schema casting with offending rows: typed values, or the row handled as on_error says; limit_rows on top"""
     import decimal
     from dataflows.base.schema_validator import ValidationError
     rep = ctx.report
     n = rng.choice([3, 6, 12])
     bad_at = sorted(rng.sample(range(2, n), rng.choice([0, 1, 1, 2]) if n > 3 else rng.choice([0, 1])))
-    rows = [[str(i), ('n/a' if i in bad_at else '%d.5' % i), 'name%d' % i] for i in range(n)]
+    strip = rng.random() < 0.7
+    rows = [[str(i), ('n/a' if i in bad_at else '%d.5' % i), rng.choice(['name%d', ' name%d', 'name%d\t', 'na me%d']) % i] for i in range(n)]
     path = os.path.join(ctx.scratch, 'cast%d.csv' % idx)
     write_csv(path, ['id', 'qty', 'name'], rows)
     how = rng.choice(['override_fields', 'sample_size'])
     policy = rng.choice(['raise', 'drop', 'ignore', 'clear'])
     limit = rng.choice([None, 0, 1, 2, 3, 5, 100])
-    kw = dict(cast_strategy=Load.CAST_WITH_SCHEMA,
+    kw = dict(cast_strategy=Load.CAST_WITH_SCHEMA, strip=strip,
               on_error={'raise': Load.ERRORS_RAISE, 'drop': Load.ERRORS_DROP, 'ignore': Load.ERRORS_IGNORE,
                         'clear': Load.ERRORS_CLEAR}[policy])
     if how == 'override_fields':
@@ -178,7 +179,7 @@ def cast_case(ctx, rng, idx):
         kw['sample_size'] = 2
     if limit is not None:
         kw['limit_rows'] = limit
-    case = {'cast-case': {'rows': rows, 'typed_by': how, 'on_error': policy, 'limit_rows': limit, 'bad_rows': bad_at}}
+    case = {'cast-case': {'rows': rows, 'strip': strip, 'typed_by': how, 'on_error': policy, 'limit_rows': limit, 'bad_rows': bad_at}}
     err = None
     try:
         with quiet():
@@ -191,7 +192,31 @@ def cast_case(ctx, rng, idx):
 
     def typed(r, bad):
         q = r[1] if (bad and policy == 'ignore') else (None if bad else decimal.Decimal(r[1]))
-        return {'id': int(r[0]), 'qty': q, 'name': r[2]}
+        return {'id': int(r[0]), 'qty': q, 'name': r[2].strip() if strip else r[2]}
+    # ---- correspondence with the model of the wrapper chain: incoming string rows, cast_value outcomes as a table
+    from tableschema import Field
+    fobj = {'id': Field({'name': 'id', 'type': 'integer'}), 'qty': Field({'name': 'qty', 'type': 'number'}),
+            'name': Field({'name': 'name', 'type': 'string'})}
+    incoming = [dict(zip(['id', 'qty', 'name'], r)) for r in rows]
+    tab = {}
+    for r in incoming:
+        for k, v in r.items():
+            try:
+                tab[(k, v)] = [k, canon.enc_val(v), canon.enc_val(fobj[k].cast_value(v))]
+            except Exception:  # noqa
+                tab[(k, v)] = [k, canon.enc_val(v), None]
+    op = {'op': 'validate', 'chain': True, 'res': 'cast%d' % idx, 'fields': ['id', 'qty', 'name'], 'policy': policy,
+          'rows': [canon.enc_row(r) for r in incoming], 'cast': list(tab.values()), 'strip': strip, 'ws': WS}
+    if limit is not None:
+        op['limit'] = limit
+    cause = getattr(err, 'cause', err)
+    if err is None:
+        real_c = {'ok': [canon.norm_row(canon.enc_row(dict(r))) for r in res[0]]}
+    elif isinstance(cause, ValidationError):
+        real_c = {'err': 'validation', 'res': cause.resource_name, 'index': cause.index}
+    else:
+        real_c = {'err': type(cause).__name__}
+    pending.append((case, op, real_c))
     if policy == 'raise':
         expect_err = any(i < lim for i in bad_at)
         if expect_err != (err is not None):
@@ -284,11 +309,13 @@ def run(ctx):
         selection_case(ctx, rng, idx)
     rng_c = ctx.rng('cast')
     for idx in range(ctx.n(250, 3000)):
-        cast_case(ctx, rng_c, idx)
+        cast_case(ctx, rng_c, idx, pending)
     if ctx.model.available():
         outs = ctx.model.run([op for _, op, _ in pending])
         for (case, op, real), mo in zip(pending, outs):
-            rep.corr(op['op'], case, real, mo)
+            if op['op'] == 'validate' and 'ok' in mo:
+                mo = {'ok': [canon.norm_row(r) for r in mo['ok']]}
+            rep.corr(op['op'] if op['op'] != 'validate' else 'loadchain', case, real, mo)
     else:
         rep.disagreements.append({'op': 'hdr', 'case': 'driver unavailable', 'real': None, 'model': None})
 
